@@ -463,19 +463,19 @@ func Finish(prop, tier string, seed int, start time.Time, res *Result, explanati
 	ev := Evidence{
 		PropertyID: prop, Tier: tier, Seed: seed, Level: "other",
 		Coverage: map[string]any{
-			"explanation":         explanation,
-			"obligations":         res.Obligations,
-			"discharged":          discharged,
-			"evaluations":         res.Obligations,
-			"distinct_nontrivial": res.Obligations,
-			"rule":                "one obligation per (rule, construct) pair found in /repo's current source by the analyser; an obligation is non-trivial when the rule's pattern matched a real construct (sites with nothing to check are not counted)",
+			"explanation":          explanation,
+			"obligations":          res.Obligations,
+			"discharged":           discharged,
+			"evaluations":          res.Obligations,
+			"distinct_nontrivial":  res.Obligations,
+			"rule":                 "one obligation per (rule, construct) pair found in /repo's current source by the analyser; an obligation is non-trivial when the rule's pattern matched a real construct (sites with nothing to check are not counted)",
 			"rule_instance_counts": counts,
-			"rules":               res.Rules,
-			"configurations":      res.Configs,
-			"samples":             samples,
-			"known_findings":      len(printedKF),
-			"exhaustive":          true,
-			"checker_cmd":         strings.Join(os.Args, " "),
+			"rules":                res.Rules,
+			"configurations":       res.Configs,
+			"samples":              samples,
+			"known_findings":       len(printedKF),
+			"exhaustive":           true,
+			"checker_cmd":          strings.Join(os.Args, " "),
 		},
 		Assumptions: assumptions,
 		WallS:       time.Since(start).Seconds(),
@@ -488,12 +488,14 @@ func Finish(prop, tier string, seed int, start time.Time, res *Result, explanati
 	}
 	fmt.Printf("%s tier=%s obligations=%d discharged=%d known=%d violations=%d configs=%d wall=%.1fs\n",
 		prop, tier, res.Obligations, discharged, len(printedKF), len(viol), len(res.Configs), ev.WallS)
-	if len(res.Broken) > 0 {
-		return 2
-	}
+	// a definite violation is reported as such even when another part of
+	// the analysis could not be completed (the BROKEN lines above say which)
 	if len(viol) > 0 {
 		fmt.Printf("VIOLATION property=%s replay=%s\n", prop, replay)
 		return 1
+	}
+	if len(res.Broken) > 0 {
+		return 2
 	}
 	return 0
 }
